@@ -138,6 +138,11 @@ def postprocess_attributes(
     if retain_names is None:
         retain_names = numpoly.get_options()["retain_names"]
     if not retain_names:
+        if names is None:
+            # fix the default names before pruning, so that the surviving
+            # exponent columns keep the indeterminants they belong to
+            varname = numpoly.get_options()["default_varname"]
+            names = numpoly.symbols(f"{varname}:{exponents.shape[1]}").names
         exponents, names = remove_redundant_names(exponents, names)
 
     exponents_, count = numpy.unique(exponents, return_counts=True, axis=0)
